@@ -193,7 +193,7 @@ the `Print Assumptions` summary.
 | C11 | - | schedules adjacent / disjoint / depth / covering for n <= 32 (20) | reconstruction of every decomposition; emitted schedule = model | - |
 | C12 | product / adjoint theorems used | - | Bogoliubov constraints + diagonal form, majorana_form, canonical form, eigenvector residuals | subset-sum spectrum, Slater minors |
 | C13 | `C13_bonds_are_lattice_edges`, `C13_each_bond_once` (every lattice size, both boundary conditions) | same, re-checked for x,y <= 12 | all Hubbard-type generators vs edge-list specification, Hermiticity, conservation, general model, jellium consistency | jellium transcendental sums (consistency only) |
-| C14 | - | swap network pairs-once / adjacent / reversal n <= 40 | swap network events; oracle tie | all circuit / gate unitaries |
+| C14 | `C14_swap_network_correct` (every n, both offsets: pairs once, adjacent, reversal) | same, n <= 40 by evaluation | swap network events; oracle tie | all circuit / gate unitaries |
 | C15 | Suzuki leaf times sum, leaf count | - | oracle tie | convergence order, exactness, final assignment, controlled variants |
 | C16 | checker soundness | - | reduce agrees on sector, tapering step, projection / freezing matrix elements, Pauli rotation | sector spectra, SCBK |
 | C17 | product homomorphism, checker soundness | - | low-rank reconstruction, one-body-squared identity, spin-orbital expansion, every active-space partition | truncation values, RDM identities |
@@ -223,7 +223,7 @@ LIMITS = r'''
   theorems that exist are listed in section 3.
 * **Not done (planned as P2/P3):** `pauli_faithful` (completeness of the normal form), the abstract
   linear-encoding theorem lifting the BK set identities to all n, unbounded proofs for the alias
-  table, `pair_within` and the swap network (all bounded instead),
+  table and `pair_within` (bounded instead),
   real-analysis
   lemmas for gate families, `[S]` symbolic-size theorems (replaced by per-input exact checks).
 * Bounded theorems state their bound; the correspondence covers the same domain completely where the
